@@ -169,14 +169,19 @@ class Session:
         return self.wait_for(lambda tr: sum(1 for e in tr if e["ev"] == ev and (pred is None or pred(e))) >= n,
                              timeout, "%d x %s" % (n, ev))
 
-    def wait_trace_quiet(self, quiet=0.05, timeout=60.0):
-        """Waits until the trace has not grown for `quiet` seconds (only for observations that are re-checked)."""
+    def wait_trace_quiet(self, quiet=0.05, timeout=60.0, ignore=()):
+        """Waits until the trace has not grown for `quiet` seconds (only for observations that are re-checked).
+        ignore: event names that do not count as activity (e.g. term.render: the spinner of a terminal that believes it is
+        still reading redraws for ever)."""
+        def size():
+            tr = self.trace()
+            return len(tr) if not ignore else sum(1 for e in tr if e.get("ev") not in ignore)
         t0 = time.time()
-        last = len(self.trace())
+        last = size()
         tl = time.time()
         while time.time() - t0 < timeout:
             time.sleep(0.005)
-            n = len(self.trace())
+            n = size()
             if n != last:
                 last, tl = n, time.time()
             elif time.time() - tl >= quiet:
